@@ -491,6 +491,82 @@ def _uidvv_step(restart1, restart2, sub, kid):
     loop.cancel_all([m.mgmt_task for m in srv.active_mailboxes.values() if hasattr(m, "mgmt_task")])
 
 
+def startup_step(sel: int, kid: bool, sub: bool, deleted: bool, twice: bool) -> bool:
+    """
+    pre: sel == core.PARAMS["sel"] and twice == core.PARAMS["twice"]
+    post: _
+    """
+    return held(_startup_step, core.concrete(locals()))
+
+
+_STARTUP_NAMES = ["Junk", "Sent Messages", "Deleted Messages", "x"]
+
+
+def _startup_step(sel, kid, sub, deleted, twice):
+    """
+    What the start-up code itself does to the namespace (IMAPUserServer.find_all_folders runs at every start and
+    auto-creates the RFC 6154 SPECIAL-USE mailboxes): first start; CREATE <name>/kid, SUBSCRIBE, DELETE <name>
+    (a mailbox with an inferior or a subscription stays as a \\Noselect placeholder); orderly shutdown; start-up
+    again (twice: and once more).  Every mailbox must look as it did before the shutdown.
+    """
+    import asimap.mbox as M
+
+    tag = "startup_step"
+    name = _STARTUP_NAMES[sel]
+    srv = env.new_world(db="sqlite")
+    env.make_mailbox(srv, "inbox", [1], [1], {"Seen": {1}}, uid_vv=1)
+    srv.uid_vv = 1
+    run(srv.db.execute("UPDATE user_server SET uid_vv = ?", ("1",), commit=True))
+    loop = SimLoop()
+
+    def do(coro):
+        st, t = loop.run_coro(coro, max_time=loop.time() + 60)
+        return st, result_of(t)
+
+    r = do(srv.find_all_folders())
+    reached()
+    pcheck(("C12", "C11"), r[0] == "ok" and r[1][0] == "ok", f"C12/{tag}/first_start_failed", r=repr(r))
+    if name == "x":
+        do(M.Mailbox.create(name, srv))
+    if kid:
+        do(M.Mailbox.create(name + "/kid", srv))
+    if sub:
+        st, (k, mb) = do(srv.get_mailbox(name))
+        if k == "ok":
+            mb.subscribed = True
+            do(mb.commit_to_db())
+    if deleted and (kid or sub):  # (without an inferior or subscription the name is gone and start-up creates the SPECIAL-USE mailbox afresh: by design)
+        r = do(M.Mailbox.delete(name, srv))
+        pcheck(("C12", "C11"), r[1][0] == "ok", f"C12/{tag}/delete_failed", r=repr(r))
+    names = [name] + ([name + "/kid"] if kid else []) + ["inbox"] + [n for n in _STARTUP_NAMES[:3] if n != name]
+
+    def look():
+        out = {}
+        for nm in names:
+            st, (k, mb) = do(srv.get_mailbox(nm))
+            out[nm] = _observe(mb, srv) if k == "ok" else ("unavailable", type(mb).__name__)
+        return out
+
+    before = look()
+    for _ in range(2 if twice else 1):
+        for m in list(srv.active_mailboxes.values()):
+            do(m.shutdown())
+        srv = env.restart(srv)
+        loop = SimLoop()
+        r = do(srv.find_all_folders())
+        pcheck(("C12", "C11"), r[0] == "ok" and r[1][0] == "ok", f"C12/{tag}/start_up_failed", r=repr(r))
+    after = look()
+    reached()
+    for nm in names:
+        if before[nm] != after[nm]:
+            pcheck(("C12", "C11"), False, f"C12/{tag}/mailbox_differs_after_restart", mailbox=nm, before=repr(before[nm]), after=repr(after[nm]))
+    try:
+        loop.cancel_all([m.mgmt_task for m in srv.active_mailboxes.values() if hasattr(m, "mgmt_task")])
+    except BaseException:
+        pass
+
+
+
 def jobs_restart(prop, tier):
     q = tier == "quick"
     T = 600 if q else 1200
@@ -500,6 +576,10 @@ def jobs_restart(prop, tier):
         for kg, ug in (shapes[:1] if n >= 3 else shapes):  # n = 3 costs ~10 min CPU per job: one gap shape
             for smn in (range(8) if n else [None]):
                 js.append({"name": f"restart_step[n={n},k={''.join(map(str, kg))}" + (f",smn={smn}]" if smn is not None else "]"), "module": "harness.persist", "fn": "restart_step", "params": {"n": n, "prop": prop, "kgaps": kg, "ugaps": ug, "smn": smn}, "timeout": T, "per_path": 90, "unblock": UNBLOCK})
+    if prop == "C12":
+        for sel in range(4):
+            for twice in (False, True):
+                js.append({"name": f"startup_step[{_STARTUP_NAMES[sel]},twice={int(twice)}]", "module": "harness.persist", "fn": "startup_step", "params": {"prop": prop, "sel": sel, "twice": twice}, "timeout": T, "per_path": 90, "unblock": UNBLOCK})
     return js
 
 
